@@ -41,7 +41,7 @@ def drop_worktree(d):
     shutil.rmtree(d, ignore_errors=True)
 
 
-def do_import(pid, src):
+def do_import(pid, src, offset=0):
     wt = worktree()
     kept = []
     try:
@@ -82,7 +82,7 @@ def do_import(pid, src):
                 diff = {k: (base.get(k), t.get(k)) for k in set(base) | set(t) if base.get(k) != t.get(k)}
                 print('   test differences:', list(diff.items())[:5])
             if ok:
-                dst = os.path.join(V, 'seeded', '%s-%s' % (pid, n))
+                dst = os.path.join(V, 'seeded', '%s-%d' % (pid, int(n) + offset))
                 os.makedirs(dst, exist_ok=True)
                 shutil.copy(patch, os.path.join(dst, 'patch.diff'))
                 shutil.copy(demo, os.path.join(dst, 'demo.py'))
@@ -120,6 +120,7 @@ def main():
     a1 = sub.add_parser('import')
     a1.add_argument('pid')
     a1.add_argument('--src')
+    a1.add_argument('--offset', type=int, default=0)
     a2 = sub.add_parser('run')
     a2.add_argument('names', nargs='*')
     a2.add_argument('--tier', default='quick')
@@ -128,7 +129,7 @@ def main():
     a2.add_argument('--props', help='comma list: run these checks instead of the seeded property\'s own')
     a = ap.parse_args()
     if a.cmd == 'import':
-        do_import(a.pid, a.src or '/tmp/seedout/' + a.pid)
+        do_import(a.pid, a.src or '/tmp/seedout/' + a.pid, a.offset)
         return 0
     names = a.names or sorted(os.listdir(os.path.join(V, 'seeded')))
     jobs = []
